@@ -7,7 +7,7 @@ ROOT = os.path.dirname(os.path.dirname(os.path.abspath(__file__)))
 ALL = [f"C{i:02d}" for i in range(1, 21)]
 checks, na = [], []
 for p in ALL:
-    if p in specs.SPECS and p in claims.CLAIMS:
+    if p in specs.SPECS and p in claims.CLAIMS and p in claims.READY:
         c = claims.CLAIMS[p]
         checks.append({
             "property_id": p,
